@@ -90,6 +90,11 @@ def run(ck):
     fl = ck.flow(copy1, switch_assume=on_id(CL))
     ck.require_fact("P4.cl-only-if-not-chunking", fl, is_mutator, E.m_is_mem("Http::StateFlags::chunked_request"), False, "mutator under CONTENT_LENGTH",
                     why="(Content-Length would be sent together with squid's own chunked encoding)")
+    ck.rule("P4b MUST-COPY: under e->id == CONTENT_LENGTH and !flags.chunked_request every path through the filter passes addEntry(e->clone()) "
+            "(Content-Length must not be droppable, e.g. by being named in Connection:, while the body is still forwarded)")
+    fl = ck.flow(copy1, switch_assume=on_id(CL), assume=[(E.m_is_mem("Http::StateFlags::chunked_request"), False)],
+                 markers={"copied": ev_call("HttpHeader::addEntry", arg={0: E.m_mentions("HttpHeaderEntry::clone")})})
+    ck.require_passed("P4b.cl-always-copied", fl, ev_exit(), "copied", "return", why="(a request body would be forwarded without its Content-Length framing)")
     n = 0
     for fn in facts.all_fns():
         for b in fn.blocks.values():
